@@ -353,9 +353,26 @@ def _groebner_member(p, eqs, ring, time_limit=20.0):
     from sympy.polys.groebnertools import groebner
     from sympy.polys.domains import QQ
 
+    from sympy.polys.orderings import grevlex
+
     R = ring.R
-    RQ = R.clone(domain=QQ)
-    gens = [RQ.from_dict({m: QQ(int(c)) for m, c in q.items()}) for q in eqs if q]
+    # only the generators that occur (a Groebner basis in 40+ unused variables is needlessly slow)
+    used = set()
+    for q in list(eqs) + [p]:
+        for m in q:
+            for k, e in enumerate(m):
+                if e:
+                    used.add(k)
+    used.add(0)
+    keep = sorted(used)
+    from sympy.polys.rings import ring as _mkring
+
+    RQ, *_g = _mkring([ring.names[k] for k in keep], QQ, grevlex)
+
+    def conv(q):
+        return RQ.from_dict({tuple(m[k] for k in keep): QQ(int(c)) for m, c in q.items()})
+
+    gens = [conv(q) for q in eqs if q]
     I = RQ.gens[0]
     gens.append(I * I + 1)
     import signal
@@ -367,7 +384,7 @@ def _groebner_member(p, eqs, ring, time_limit=20.0):
     signal.setitimer(signal.ITIMER_REAL, time_limit)
     try:
         G = groebner(gens, RQ)
-        pq = RQ.from_dict({m: QQ(int(c)) for m, c in p.items()})
+        pq = conv(p)
         _, rem = pq.div(G)
         return not rem
     except TimeoutError:
